@@ -286,7 +286,10 @@ def source_hashes(paths):
 def correspond(ctx, harness_args, mode, stem, sample_every=997):
     """Run the harness (implementation answers) and the compiled model on the same queries; diff.
     Returns dict(rows, ndiff, diffs, kinds, samples, kv, ok)."""
-    rc, out, kv = harness(ctx, list(harness_args) + ["--out", ctx.work])
+    if harness_args is None:      # a further stream written by a harness run that already took place
+        rc, out, kv = 0, "", {}
+    else:
+        rc, out, kv = harness(ctx, list(harness_args) + ["--out", ctx.work])
     q, a, b = (os.path.join(ctx.work, f"{stem}.{e}") for e in ("q", "rust", "lean"))
     res = {"rows": 0, "ndiff": 0, "diffs": [], "kinds": {}, "samples": [], "kv": kv, "ok": rc == 0, "out": out}
     if rc != 0 or not os.path.exists(q):
